@@ -561,8 +561,8 @@ def planCrayPointerDecl (s : Str) : Res (List Slot) :=
   | [a, b] =>
     let pointer := strip (applyMap r.map a)
     let pointee := strip (applyMap r.map b)
-    -- `pointee_str[-1]`: IndexError for an empty pointee, BEFORE any child call
-    if pointee.isEmpty then .raises .indexError else
+    -- `if not pointee_str: return None` (repaired: `pointee_str[-1]` used to raise IndexError here)
+    if pointee.isEmpty then .noMatch else
     if endsC ')' pointee then
       .ok [.child R.Cray_Pointer_Name pointer, .child R.Cray_Pointee_Decl pointee]
     else .ok [.child R.Cray_Pointer_Name pointer, .child R.Cray_Pointee_Name pointee]
@@ -759,6 +759,8 @@ def matchUse (o : Oracle Node) (s : Str) : Res (List (Item Node)) :=
         if startsC ',' line then
           let ln := strip (pre.drop 1)
           if ln.isEmpty then .noMatch else (o.call R.Module_Nature ln).map .node
+        -- `elif line[:idx].strip(): return None` (repaired: only `, Module_Nature` may stand before the `::`)
+        else if !(strip pre).isEmpty then .noMatch
         else .ok .none
       natR.bind fun nat =>
       let l2 := lstrip post
@@ -864,7 +866,7 @@ def planDataEditDescC1002 (s : Str) : Res (List Slot) :=
     else if ch == 'E' || ch == 'G' then
       let my := upper (lstrip rest)
       match my with
-      | [] => .raises .indexError                 -- `my_str[0]`
+      | [] => .noMatch                            -- `if not my_str: return None` (repaired: `my_str[0]` raised IndexError)
       | c2 :: my' =>
         let two := ch == 'E' && (c2 == 'S' || c2 == 'N')
         let my2 := if two then lstrip my' else my
